@@ -165,7 +165,8 @@ CLAIMED['C08'] = dict(
          'identifier only for `ns:pkg/..` names, call the ownership bookkeeping for exactly the type entries with their (referenced, created) ids; component_defined_type maps every constructor '
          'to the constructor of the same meaning with members in order; resource keeps the name and makes a second id of a known resource an alias owned by the owning interface; use_or_own '
          'records first ownership or a `use` of the owning interface with the original name on rename. By induction on type depth this fixes the decoded shape for any depth. NOT claimed: '
-         'that wasmparser\'s arena is well formed (validator), core module types, and the whole second half of the property (re-encoded component types in encoding.rs, substitution validity).',
+         'that wasmparser\'s arena is well formed (validator), core module types, and the second half of the property (re-encoded component types, substitution validity) except one kernel: '
+         'TypeEncoder::use_aliases leaves in the scope\'s alias table exactly the used types of the interface being encoded, each aliased from the instance of its owning interface under its original name.',
     note='Trusted: wasmparser struct/enum declarations read from the registry sources, contracts of the sibling converters, arena model of Types::add_*, M2S, z3. Counterexamples are rule-level; two WIT documents (a 3-hop `use` chain with a rename, all value constructors) are decoded by the real Package::from_bytes on every run.',
     design='DESIGN.md section 9.2 / C08')
 
